@@ -627,49 +627,12 @@ theorem pyMaxTag_mem (u : UInfo) (l : List Str) (t : Str) (h : pyMaxTag u l = so
     · rw [← h, h']; simp
     · rw [← h]; exact List.mem_cons_of_mem _ h'
 
-/-! ## Agreement of the two groupings on the sub-domain where they can agree -/
-
-theorem tagsOrDefault_single (op : TagOp) (h : op.tags.length ≤ 1) : tagsOrDefault op = [firstTag op] := by
-  unfold tagsOrDefault firstTag
-  cases ht : op.tags with
-  | nil => simp
-  | cons t ts =>
-    cases ts with
-    | nil => simp
-    | cons t' ts' => rw [ht] at h; simp at h
-
-theorem tagPairs_single (u : UInfo) (ops : List TagOp) (h : ∀ op ∈ ops, op.tags.length ≤ 1) :
-    tagPairs u ops = ops.map (fun op => (normTagKey u (firstTag op), firstTag op, some op.id)) := by
-  unfold tagPairs
-  induction ops with
-  | nil => rfl
-  | cons op ops ih =>
-    simp only [List.flatMap_cons, List.map_cons]
-    rw [tagsOrDefault_single op (h op (by simp))]
-    simp only [opTagPairs, List.contains_nil, Bool.false_eq_true, if_false, List.singleton_append]
-    rw [ih (fun o ho => h o (List.mem_cons_of_mem _ ho))]
+/-! ## Generic helpers -/
 
 theorem gfold_map {γ β α : Type} (F : γ → β) (kf : β → Str) (vf : β → α) (xs : List γ) (d : List (Str × List α)) :
     gfold kf vf (xs.map F) d = gfold (fun x => kf (F x)) (fun x => vf (F x)) xs d := by
   unfold gfold
   rw [List.foldl_map]
-
-/-- The common refinement: groups by raw first tag, values (tag, id). -/
-def firstTagGroups (ops : List TagOp) : List (Str × List (Str × Option Str)) :=
-  gfold firstTag (fun op => (firstTag op, some op.id)) ops []
-
-theorem keyToPairs_single (u : UInfo) (ops : List TagOp) (h1 : ∀ op ∈ ops, op.tags.length ≤ 1)
-    (h2 : ∀ a ∈ ops, ∀ b ∈ ops, normTagKey u (firstTag a) = normTagKey u (firstTag b) → firstTag a = firstTag b) :
-    keyToPairs u ops = reKey (normTagKey u) (firstTagGroups ops) := by
-  rw [keyToPairs_eq, tagPairs_single u ops h1, gfold_map]
-  unfold firstTagGroups
-  rw [gfold_reKey]
-  · rfl
-  · intro a ha b hb heq
-    simp only [List.map_nil, List.nil_append] at ha hb
-    obtain ⟨x, hx, rfl⟩ := List.mem_map.1 ha
-    obtain ⟨y, hy, rfl⟩ := List.mem_map.1 hb
-    exact h2 x hx y hy heq
 
 theorem projOps_gfold_some {β : Type} (kf : β → Str) (a b : β → Str) (xs : List β) :
     ∀ d, projOps (gfold kf (fun x => (a x, some (b x))) xs d) = gfold kf b xs (projOps d) := by
@@ -677,55 +640,7 @@ theorem projOps_gfold_some {β : Type} (kf : β → Str) (a b : β → Str) (xs 
   | nil => intro _; rfl
   | cons x xs ih => intro d; rw [gfold_cons, gfold_cons, ih, projOps_addMulti_some]
 
-theorem mockTagToOps_eq (ops : List TagOp) : mockTagToOps ops = projOps (firstTagGroups ops) := by
-  unfold firstTagGroups
-  rw [projOps_gfold_some]; rfl
-
 theorem kDefaultTag_ne_nil : kDefaultTag ≠ [] := by decide
-
-theorem firstTag_ne_nil (op : TagOp) (h : [] ∉ op.tags) : firstTag op ≠ [] := by
-  unfold firstTag
-  cases ht : op.tags with
-  | nil => simpa using kDefaultTag_ne_nil
-  | cons t ts =>
-    simp only [List.head?_cons, Option.getD_some]
-    intro h0
-    apply h
-    rw [ht, h0]; simp
-
-theorem firstTagGroups_entry (ops : List TagOp) (e : Str × List (Str × Option Str)) (he : e ∈ firstTagGroups ops) :
-    e.2 ≠ [] ∧ (∀ x ∈ e.2.map (·.1), x = e.1) ∧ ∃ op ∈ ops, firstTag op = e.1 := by
-  obtain ⟨h1, h2⟩ := gfold_entry _ _ _ e he
-  refine ⟨h2, ?_, ?_⟩
-  · intro x hx
-    rw [h1] at hx
-    simp only [List.map_map, List.mem_map, List.mem_filter, beq_iff_eq, Function.comp_def] at hx
-    obtain ⟨op, ⟨_, hk⟩, rfl⟩ := hx
-    exact hk
-  · rw [h1] at h2
-    cases hf : ops.filter (fun x => firstTag x == e.1) with
-    | nil => rw [hf] at h2; simp at h2
-    | cons op rest =>
-      have : op ∈ ops.filter (fun x => firstTag x == e.1) := by rw [hf]; simp
-      obtain ⟨ho, hk⟩ := List.mem_filter.1 this
-      exact ⟨op, ho, by simpa using hk⟩
-
-theorem grouping_agree_of (u : UInfo) (ops : List TagOp) (h1 : ∀ op ∈ ops, op.tags.length ≤ 1)
-    (h2 : ∀ a ∈ ops, ∀ b ∈ ops, normTagKey u (firstTag a) = normTagKey u (firstTag b) → firstTag a = firstTag b)
-    (h3 : ∀ op ∈ ops, [] ∉ op.tags) :
-    surfaces (groupEndpoints u ops) = surfaces (groupMocks u ops) := by
-  unfold surfaces groupEndpoints groupMocks
-  rw [keyToPairs_single u ops h1 h2, mockTagToOps_eq]
-  simp only [reKey, projOps, List.map_map]
-  apply List.map_congr_left
-  intro e he
-  obtain ⟨hne, hall, op, hop, hft⟩ := firstTagGroups_entry ops e he
-  have hmax : pyMaxTag u (e.2.map (·.1)) = some e.1 :=
-    pyMaxTag_all_eq u e.1 _ (by simpa using hne) hall
-  have hnn : e.1 ≠ [] := hft ▸ firstTag_ne_nil op (h3 op hop)
-  have hemp : e.1.isEmpty = false := by simpa using hnn
-  have hif : (if e.1 = [] then kDefaultTag else e.1) = e.1 := by simp [hnn]
-  simp [mkGroup, hmax, hif]
 
 /-! ## Property names of `APIClient` vs the tag clients -/
 
@@ -777,5 +692,146 @@ theorem clientProps_perm (u : UInfo) (ops : List TagOp) :
     rw [dictGet_of_mem _ hn e he]; rfl
   rw [this, tagMapEmitter_fused]
   simp [groupEndpoints, mkGroup, List.map_map, Function.comp_def]
+
+/-! ## The mocks emitter groups like the endpoints emitter (F23 repaired) -/
+
+theorem mapM_some_filterMap {α β : Type} (f : α → Option β) (l : List α) (h : ∀ a ∈ l, (f a).isSome = true) :
+    l.mapM f = some (l.filterMap f) := by
+  induction l with
+  | nil => rfl
+  | cons a l ih =>
+    have ha := h a (by simp)
+    obtain ⟨b, hb⟩ := Option.isSome_iff_exists.1 ha
+    rw [List.mapM_cons, hb, ih (fun x hx => h x (List.mem_cons_of_mem _ hx))]
+    simp [hb]
+
+theorem filterMap_id_of_some {α : Type} (l : List α) (f : α → Option α) (h : ∀ a ∈ l, f a = some a) :
+    l.filterMap f = l := by
+  induction l with
+  | nil => rfl
+  | cons a l ih =>
+    rw [List.filterMap_cons, h a (by simp), ih (fun x hx => h x (List.mem_cons_of_mem _ hx))]
+
+theorem find_group_of_mem (gs : List TagGroup) (hn : (gs.map (·.key)).Nodup) (g : TagGroup) (hg : g ∈ gs) :
+    gs.find? (fun x => x.key == g.key) = some g := by
+  induction gs with
+  | nil => cases hg
+  | cons a gs ih =>
+    simp only [List.map_cons, List.nodup_cons] at hn
+    rcases List.mem_cons.1 hg with rfl | hg
+    · simp
+    · have hne : ¬ a.key = g.key := fun heq => hn.1 (heq ▸ List.mem_map_of_mem (f := (·.key)) hg)
+      have : (a.key == g.key) = false := by simpa using hne
+      simp only [List.find?_cons, this]
+      exact ih hn.2 hg
+
+theorem keyToOps_keys (u : UInfo) (ops : List TagOp) :
+    (keyToOps u ops).map (·.1) = (groupEndpoints u ops).map (·.key) := by
+  rw [keyToOps_fused]
+  simp [projOps, groupEndpoints, mkGroup, List.map_map, Function.comp_def]
+
+theorem tagMapEmitter_keys (u : UInfo) (ops : List TagOp) :
+    (tagMapEmitter u ops).map (·.1) = (groupEndpoints u ops).map (·.key) := by
+  rw [tagMapEmitter_fused]
+  simp [groupEndpoints, mkGroup, List.map_map, Function.comp_def]
+
+theorem keyToPairs_nonempty (u : UInfo) (ops : List TagOp) : ∀ e ∈ keyToPairs u ops, e.2 ≠ [] := by
+  intro e he
+  rw [keyToPairs_eq] at he
+  exact (gfold_entry _ _ _ e he).2
+
+/-- The list comprehension of `MocksEmitter._group_operations_by_tag` never raises (`candidates_by_key[key]`, `max`), and its
+    groups are the groups of the endpoints emitter taken in the order of their keys. -/
+theorem groupMocksRaw_eq (u : UInfo) (ops : List TagOp) : groupMocksRaw u ops = some (groupMocks u ops) := by
+  unfold groupMocksRaw groupMocks
+  simp only
+  rw [keyToOps_keys]
+  have hpt : ∀ k ∈ sortKeys ((groupEndpoints u ops).map (·.key)),
+      ((tagDictGet (keyToCands u ops) k).bind fun cands => (pyMaxTag u cands).bind fun c =>
+        (tagDictGet (keyToOps u ops) k).map fun os => mkGroup u k c os) =
+      (groupEndpoints u ops).find? (fun g => g.key == k) := by
+    intro k hk
+    have hk' : k ∈ (groupEndpoints u ops).map (·.key) := (sortKeys_perm _).mem_iff.1 hk
+    obtain ⟨g, hg, rfl⟩ := List.mem_map.1 hk'
+    rw [find_group_of_mem _ (groupEndpoints_keys_nodup u ops) g hg]
+    unfold groupEndpoints at hg
+    obtain ⟨e, he, rfl⟩ := List.mem_map.1 hg
+    rw [keyToCands_fused, keyToOps_fused]
+    have h1 := dictGet_map_of_mem (keyToPairs u ops) (keyToPairs_nodup u ops) (fun e => e.2.map (·.1)) e he
+    have h2 := dictGet_map_of_mem (keyToPairs u ops) (keyToPairs_nodup u ops) (fun e => e.2.filterMap (·.2)) e he
+    have hne : e.2.map (·.1) ≠ [] := by
+      have := keyToPairs_nonempty u ops e he
+      simpa using this
+    simp only [mapVals, projOps, mkGroup] at h1 h2 ⊢
+    rw [h1, h2, Option.bind_some, pyMaxTag_of_ne u _ hne]
+    rfl
+  rw [mapM_some_filterMap _ _ (fun k hk => by
+    rw [hpt k hk]
+    have hk' : k ∈ (groupEndpoints u ops).map (·.key) := (sortKeys_perm _).mem_iff.1 hk
+    obtain ⟨g, hg, rfl⟩ := List.mem_map.1 hk'
+    rw [find_group_of_mem _ (groupEndpoints_keys_nodup u ops) g hg]; rfl)]
+  exact congrArg some (filterMap_congr_mem _ _ _ hpt)
+
+/-- Same groups (module, class, operations), possibly in another order. -/
+theorem groupMocks_perm (u : UInfo) (ops : List TagOp) : (groupMocks u ops).Perm (groupEndpoints u ops) := by
+  unfold groupMocks
+  simp only
+  refine (List.Perm.filterMap _ (sortKeys_perm _)).trans ?_
+  rw [List.filterMap_map]
+  rw [filterMap_id_of_some]
+  intro g hg
+  exact find_group_of_mem _ (groupEndpoints_keys_nodup u ops) g hg
+
+/-- … namely in the order `sorted(keys)`. -/
+theorem groupMocks_keys (u : UInfo) (ops : List TagOp) :
+    (groupMocks u ops).map (·.key) = sortKeys ((groupEndpoints u ops).map (·.key)) := by
+  unfold groupMocks
+  simp only
+  rw [List.map_filterMap]
+  apply filterMap_id_of_some
+  intro k hk
+  have hk' : k ∈ (groupEndpoints u ops).map (·.key) := (sortKeys_perm _).mem_iff.1 hk
+  obtain ⟨g, hg, rfl⟩ := List.mem_map.1 hk'
+  rw [find_group_of_mem _ (groupEndpoints_keys_nodup u ops) g hg]
+  rfl
+
+/-- Anything computed from the canonical tag of the mock groups is what `ClientVisitor.visit` computes from its `tag_map` in the
+    order `sorted(tag_map)`. -/
+theorem groupMocks_map_canon {γ : Type} (u : UInfo) (ops : List TagOp) (G : Str → γ) :
+    (groupMocks u ops).map (fun g => G g.canon) =
+      (sortKeys ((tagMapEmitter u ops).map (·.1))).filterMap fun k => (tagDictGet (tagMapEmitter u ops) k).map G := by
+  unfold groupMocks
+  simp only
+  rw [tagMapEmitter_keys, List.map_filterMap]
+  apply filterMap_congr_mem
+  intro k hk
+  have hk' : k ∈ (groupEndpoints u ops).map (·.key) := (sortKeys_perm _).mem_iff.1 hk
+  obtain ⟨g, hg, rfl⟩ := List.mem_map.1 hk'
+  rw [find_group_of_mem _ (groupEndpoints_keys_nodup u ops) g hg]
+  unfold groupEndpoints at hg
+  obtain ⟨e, he, rfl⟩ := List.mem_map.1 hg
+  rw [tagMapEmitter_fused]
+  have h1 := dictGet_map_of_mem (keyToPairs u ops) (keyToPairs_nodup u ops)
+    (fun e => (pyMaxTag u (e.2.map (·.1))).getD kDefaultTag) e he
+  simp only [mkGroup] at h1 ⊢
+  rw [h1]
+  rfl
+
+theorem groupMocks_mk (u : UInfo) (ops : List TagOp) (g : TagGroup) (hg : g ∈ groupMocks u ops) :
+    g = mkGroup u g.key g.canon g.ops := by
+  have hg' := (groupMocks_perm u ops).mem_iff.1 hg
+  unfold groupEndpoints at hg'
+  obtain ⟨e, _, rfl⟩ := List.mem_map.1 hg'
+  rfl
+
+/-- `MockAPIClient` has the properties of `APIClient`, in the same order. -/
+theorem clientProps_eq_mock (u : UInfo) (ops : List TagOp) : clientProps u ops = some (mockClientProps u ops) := by
+  unfold clientProps mockClientProps
+  rw [tagMapVisitor_eq, Option.map_some, ← groupMocks_map_canon u ops (sanModule u)]
+  congr 1
+  apply List.map_congr_left
+  intro g hg
+  rw [groupMocks_mk u ops g hg]
+  rfl
 
 end Pog
